@@ -44,8 +44,8 @@ pub (super) struct JobQueueCore {
     /// The current state of this queue
     pub (super) state: QueueState,
 
-    /// If something is blocked on this queue, a condition variable to wake it up
-    pub (super) wake_blocked: Vec<Weak<Condvar>>,
+    /// If something is blocked on this queue, a condition variable to wake it up (and the mutex its thread waits with)
+    pub (super) wake_blocked: Vec<(Weak<Condvar>, Weak<Mutex<bool>>)>,
 }
 
 impl fmt::Debug for JobQueue {
